@@ -960,6 +960,13 @@ func (e *Engine) evalCall(env *Env, c *ast.CallExpr) TV {
 			sfail("fresh() outside a postcondition")
 		}
 		return TV{V: &Sc{fmt.Sprintf("(> %s %s)", ref, env.old.wm)}, T: boolT}
+	case "allocated":
+		// allocated(p): p is nil or an object that exists in the current state (its reference
+		// is not above the allocation watermark) - a well-formedness fact about stored
+		// pointers that the engine knows for loaded values but not under quantifiers
+		x := e.eval(env, c.Args[0])
+		ref := e.flatten(x.T, x.V)[0]
+		return TV{V: &Sc{fmt.Sprintf("(<= %s %s)", ref, env.cur.wm)}, T: boolT}
 	case "typeof":
 		x := e.eval(env, c.Args[0])
 		iv, ok := x.V.(*IfaceSV)
